@@ -37,6 +37,17 @@ def truthy_pc(pred, negate=False):
                 return (not t) if negate else t
         return None
     return f
+def known_bool(pred):
+    """the boolean field itself, or the literal the path condition pins it to (`if x { .. true .. }`)"""
+    def f(t, env):
+        if pred(t, env):
+            return True
+        if t[0] == 'lit' and isinstance(t[1], bool):
+            for a, tr in env.get('pc', ()):
+                if pred(a, env):
+                    return tr == t[1]
+        return False
+    return f
 def sync_mode(t, env):
     for a, tr in env['pc']:
         if a[0] == 'is' and a[2] == 'RefreshMode::RefreshOnly':
@@ -49,7 +60,7 @@ ENCODERS = [
     ('paged_results::PagedResults> for', 'ctl', '1.2.840.113556.1.4.319', False, SEQ(INT(F('pr', 'size')), OCT(F('pr', 'cookie')))),
     ('content_sync::SyncRequest> for', 'ctl', '1.3.6.1.4.1.4203.1.9.1.1', False,
      SEQ(ENUM(sync_mode), OPT(is_some_pc(F('sr', 'cookie')), OCT(some_of(F('sr', 'cookie'))), 'cookie'),
-         OPT(truthy_pc(F('sr', 'reload_hint')), BOOL(F('sr', 'reload_hint')), 'reloadHint'))),
+         OPT(truthy_pc(F('sr', 'reload_hint')), BOOL(known_bool(F('sr', 'reload_hint'))), 'reloadHint'))),
     ('read_entry::PreRead<S>> for', 'ctl', None, False, SEQ(MANY(F('pr', '0', 'attrs'), OCT(elem())))),
     ('read_entry::PostRead<S>> for', 'ctl', None, False, SEQ(MANY(F('pr', '0', 'attrs'), OCT(elem())))),
     ('assertion::Assertion<S>> for', 'ctl', '1.3.6.1.1.12', False,
@@ -91,7 +102,7 @@ def run(ctx):
         p = cands[0]
         B = hirq.Body(f, f.hir[p])
         ctx.analysed['bodies'].add(p)
-        outs = [o for o in absx.Interp(f, B, unroll=1, inline=inline_policy, for_once=True).run() if o.kind in ('val', 'ret')]
+        outs = [o for o in absx.Interp(f, B, unroll=1, inline=inline_policy, for_once=True, combinators=True).run() if o.kind in ('val', 'ret')]
         short = sub.split('>')[0].split('<')[0]
         ctx.add('X.encoder-paths', short, loc(B.root), len(outs) >= 1, 'no returning path')
         seen_opt = set()
@@ -124,11 +135,15 @@ def run(ctx):
                     ctx.add('X.value', '%s|%s' % (short, sig), loc(B.root), none3, 'requestValue omitted although a field is present')
                     continue
                 all_none = False
+                # the whole encoded buffer: `buf[..]` (any spelling of the copy) or the buffer itself
                 ok = val[0] == 'ctor' and val[1] == 'Some' and val[2][0][0] == 'index' and val[2][0][1][0] == 'encoded' and val[2][0][2][0] == 'struct' and val[2][0][2][1].endswith('RangeFull')
+                enc = val[2][0][1] if ok else None
+                if not ok and val[0] == 'ctor' and val[1] == 'Some' and val[2][0][0] == 'encoded':
+                    ok, enc = True, val[2][0]
                 if not ok:
                     ctx.fail('X.value', '%s|%s' % (short, sig), loc(B.root), 'value is not Some(<whole encoded buffer>): %s' % absx.fmt(val)[:80]); continue
                 env = {'elems': [], 'pc': o.st.pc}
-                mism = compare(to_shape(val[2][0][1][1]), spec, o.st.pc, env)
+                mism = compare(to_shape(enc[1]), spec, o.st.pc, env)
                 ctx.add('X.value', '%s|%s' % (short, sig), loc(B.root), not mism, '; '.join(mism)[:400] or 'matches the RFC')
                 if spec[0] == 'C':
                     for r in spec[3]:
